@@ -87,6 +87,25 @@ def _model_cache(I, a, k):
     return I.class_attr(cls, '__cache')
 
 
+def _repo_const(I, a, k):
+    """repo_const(relpath::Class, attr): the class attribute as the real source defines it"""
+    cls = I.repo.find(a[0])
+    return I.class_attr(cls, a[1])
+
+
+def _char_pred(I, a, k):
+    """char_pred(name, c): an uninterpreted character predicate; for a character taken from a string by index it is
+    a function of (string, position), like the built-in character classes"""
+    c = I.resolve(a[1])
+    if isinstance(c, SChar):
+        return lib.wrap_bool(_pred_at(a[0])(c.src.t, I.term(c.idx)))
+    f = _PRED.get(a[0])
+    if f is None:
+        f = z3.Function(f'py_{a[0]}', z3.StringSort(), z3.BoolSort())
+        _PRED[a[0]] = f
+    return lib.wrap_bool(f(I.term(c)))
+
+
 def _ghost_fill(I, a, k):
     """fill(arr, lo, hi, v): the array equal to arr except that positions lo <= p < hi hold v (ghost code only)"""
     arr, lo, hi, v = [I.resolve(x) for x in a]
@@ -164,6 +183,8 @@ def _make_unit_value(I, a, k):
 
 
 NATIVE = {
+    'char_pred': _char_pred,
+    'repo_const': _repo_const,
     'make_unit_value': _make_unit_value,
     'letter_char': _letter_char,
     'hex_char': _hex_char,
@@ -330,7 +351,9 @@ def repair_string(model, t):
         from_ranges = [(0x4E00, 0x9FBF), (0x3400, 0x4DBF), (0x3040, 0x309F), (0x30A0, 0x30FF), (0xFF66, 0xFF9D),
                        (0xAC00, 0xD7AF), (0x1100, 0x11FF), (0x3130, 0x318F), (0xFFB0, 0xFFDC)]
         cjk = any(lo <= code <= hi for lo, hi in from_ranges)
-        if pv('isspace'):
+        if pv('isemoji'):
+            ch = '\U0001F44C'       # an emoji (which the default token pattern [^\\w\\d] also treats as a separator)
+        elif pv('isspace'):
             ch = ' '
         elif cjk:
             ch = chr(code) if chr(code).isalpha() == pv('isalpha') else '\u4e2d'
